@@ -286,7 +286,7 @@ func search(c *vk.Ctx, f *fixture, cfg config) {
 			expanded++
 		}
 		timeUp := expanded < len(frontier)
-		all, stop, ok := c.Exchange(fmt.Sprintf("L%d", depth), found, timeUp)
+		all, stop, ok := c.ExchangeOwned(fmt.Sprintf("L%d", depth), found, timeUp)
 		if !ok {
 			return
 		}
